@@ -127,9 +127,6 @@ package lib
 //@   assigns nothing
 //@   trusted
 
-//@ func generalizeErr(err error) error
-//@   ensures err == nil ==> result == nil
-//@   assigns nothing
 
 // One direction of the relay. The digests are relative to the start of the call (requires txh(dst) == rxh(src)):
 // "exactly the bytes it read, in order, without loss, duplication or reordering up to the point where one side fails,
@@ -160,3 +157,13 @@ package lib
 //@ func (ts *tunnelStats) Print(logger *log.Logger)
 //@   assigns nothing
 //@   trusted
+
+// ---------------- C17: client addresses never reach logs/statistics through error texts ----------------
+
+// "whatever error the network stack returns, the text that reaches a logger or the tunnel summary is address-free"
+//@ func generalizeErr(err error) error
+//@   requires netStackErr(err)
+//@   requires addrFree(errConnReset) && addrFree(errConnRefused) && addrFree(errConnAborted) && addrFree(errUnreachable) && addrFree(errConnTimeout) && addrFree(errNetOp)
+//@   ensures err == nil ==> result == nil
+//@   ensures @C17: result == nil || addrFree(result)
+//@   assigns nothing
